@@ -77,6 +77,10 @@ def classify(c, g, l):
         return "mismatch", "model says error, impl says " + g["r"]
     # model ok
     if g["r"] != "ok":
+        if g["r"] == "error" and c.get("kind_lenient") and c.get("num_kind") and "invalid cast" in str(g.get("msg")):
+            # the engine refuses arithmetic on a Go number kind other than float64 (AsType[float64]); the model has one
+            # number type.  A refusal is accepted; an answer must be the model's answer.
+            return "skip", "go-number-kind-refused"
         return "mismatch", "model says ok, impl says " + g["r"] + ": " + str(g.get("msg"))[:200]
     if g.get("nonPlain"):
         return "mismatch", "non-plain values in result: %s" % g["nonPlain"]
@@ -155,7 +159,7 @@ def context_variants(cases, seed):
         # only the generic fields: what a property attaches for its own post-processing (staged evaluation, textbook
         # reference, …) is about the original query
         c2 = {k: c.get(k) for k in ("doc", "q", "mode", "wrapped", "pg", "arr", "consts", "sql", "tag", "order_keys",
-                                    "source_rows", "num_kind", "vars", "tables")}
+                                    "source_rows", "num_kind", "vars", "tables", "kind_lenient")}
         if kind == "cte":
             q2 = ["select", [["zz_ctx", copy.deepcopy(q)]], False, [["star"]], ["table", ["zz_ctx"], "", "zz_ctx"], ["bool", True],
                   [], ["bool", True], [], None, None, {}]
